@@ -13,7 +13,7 @@ PYTHONPATH=$WT /venv/bin/python $SRC/demo$I.py > /tmp/confirm_${P}_${I}_clean.lo
 git apply $SRC/patch$I.diff || { echo "patch does not apply"; cd /; git -C /repo worktree remove --force $WT; exit 3; }
 PYTHONPATH=$WT /venv/bin/python $SRC/demo$I.py > /tmp/confirm_${P}_${I}_mut.log 2>&1; rc_mut=$?
 PYTHONPATH=$WT nice -n 10 /venv/bin/python -m pytest -q -p no:cacheprovider --timeout=1800 -x test/ > /tmp/confirm_${P}_${I}_tests.log 2>&1; rc_tests=$?
-summary=$(tail -1 /tmp/confirm_${P}_${I}_tests.log)
+summary=$(grep -aE "[0-9]+ (passed|failed)" /tmp/confirm_${P}_${I}_tests.log | tail -1)
 cd /
 git -C /repo worktree remove --force $WT
 cp $SRC/patch$I.diff $OUT/patch$I.diff; cp $SRC/demo$I.py $OUT/demo$I.py
